@@ -704,6 +704,17 @@ Theorem C03_starred_inline_linked : forall (o : S4.R3) (ang : V4.M3 R) trs trid,
   card_gives (V4.vlist o ++ V4.mlist b) o b.
 Proof. exact starred_inline. Qed.
 
+(* *TRn with an abbreviated matrix of ANGLES: the supplied angles become cosines,
+   the J's stay; every C04_normalize_matrix_*_reproduces theorem then applies to
+   the cosine pattern *)
+Theorem C03_starred_abbreviated_card_linked : forall (o : S4.R3) (apat : V4.M3 (option R))
+    (b : V4.M3 R),
+  M4.normalize_matrix RS (V4.mlist (cos_pattern apat)) = M4.Ok (V4.mlist b) ->
+  S4.rows_orthonormal b -> T4V.C04.ProofsMatrix.clip_ok_m b ->
+  M4.tr_card RS true (map Some (V4.vlist o) ++ V4.mlist apat) = M4.Ok (V4.vlist o ++ V4.mlist b) /\
+  card_gives (V4.vlist o ++ V4.mlist b) o b.
+Proof. exact starred_abbreviated_card. Qed.
+
 (* ---------------- linked to C13: de-duplication of surfaces ----------------- *)
 (* a written facet (surface k, type t, parameters prm, no TRANSFORM) that
    remove_duplicate_surfaces renumbers to k' is kept as surface k' with the same
@@ -792,8 +803,8 @@ Print Assumptions C03_family_references.
 
 (* transformation taken from a well-formed TR card / inline transformation (C04) *)
 Theorem C03_family_linked :
-  ltac:(let t := type of (conj C03_card_transformation_linked (conj C03_written_linked (conj C03_bodies_written_linked (conj C03_abbreviated_card_linked (conj C03_six_entry_card_linked (conj C03_trcl_by_number_linked (conj C03_expand_macro_den_written_linked (conj C03_card_gives_canonical_linked (conj C03_six_entry_cols_card_linked (conj C03_three_entry_row_card_linked (conj C03_three_entry_col_card_linked (conj C03_five_entry_card_linked (conj C03_fill_by_number_linked (conj C03_starred_inline_linked (conj C03_facet_survives_dedup_linked C03_facet_locus_survives_dedup_linked))))))))))))))) in exact t).
-Proof. exact (conj C03_card_transformation_linked (conj C03_written_linked (conj C03_bodies_written_linked (conj C03_abbreviated_card_linked (conj C03_six_entry_card_linked (conj C03_trcl_by_number_linked (conj C03_expand_macro_den_written_linked (conj C03_card_gives_canonical_linked (conj C03_six_entry_cols_card_linked (conj C03_three_entry_row_card_linked (conj C03_three_entry_col_card_linked (conj C03_five_entry_card_linked (conj C03_fill_by_number_linked (conj C03_starred_inline_linked (conj C03_facet_survives_dedup_linked C03_facet_locus_survives_dedup_linked))))))))))))))). Qed.
+  ltac:(let t := type of (conj C03_card_transformation_linked (conj C03_written_linked (conj C03_bodies_written_linked (conj C03_abbreviated_card_linked (conj C03_six_entry_card_linked (conj C03_trcl_by_number_linked (conj C03_expand_macro_den_written_linked (conj C03_card_gives_canonical_linked (conj C03_six_entry_cols_card_linked (conj C03_three_entry_row_card_linked (conj C03_three_entry_col_card_linked (conj C03_five_entry_card_linked (conj C03_fill_by_number_linked (conj C03_starred_inline_linked (conj C03_starred_abbreviated_card_linked (conj C03_facet_survives_dedup_linked C03_facet_locus_survives_dedup_linked)))))))))))))))) in exact t).
+Proof. exact (conj C03_card_transformation_linked (conj C03_written_linked (conj C03_bodies_written_linked (conj C03_abbreviated_card_linked (conj C03_six_entry_card_linked (conj C03_trcl_by_number_linked (conj C03_expand_macro_den_written_linked (conj C03_card_gives_canonical_linked (conj C03_six_entry_cols_card_linked (conj C03_three_entry_row_card_linked (conj C03_three_entry_col_card_linked (conj C03_five_entry_card_linked (conj C03_fill_by_number_linked (conj C03_starred_inline_linked (conj C03_starred_abbreviated_card_linked (conj C03_facet_survives_dedup_linked C03_facet_locus_survives_dedup_linked)))))))))))))))). Qed.
 Print Assumptions C03_family_linked.
 
 
